@@ -155,7 +155,9 @@ fn recase(w: &str, casing: u8) -> String {
                 None => w.to_string(),
             }
         }
-        9 => w.to_uppercase(),
+        // capitals; a sharp s becomes the capital sharp s U+1E9E (the other orthographic option, SS, is what
+        // to_uppercase gives and is covered by the recasing property itself)
+        9 => w.chars().map(|c| if c == 'ß' { "ẞ".to_string() } else { c.to_uppercase().collect::<String>() }).collect(),
         10 => w.chars().enumerate().map(|(i, c)| if i % 2 == 1 { c.to_uppercase().collect::<String>() } else { c.to_string() }).collect(),
         _ => w.to_string(),
     }
